@@ -397,7 +397,7 @@ mutual
         match cx.cfg.ifStyle with
         | .shortCircuit =>
             if o.isEmpty then pure ([.boolOp .and_ [t, bw]], st)
-            else pure ([.boolOp .or_ [.boolOp .and_ [t, .boolOp .or_ [bw, .const (.int 1)]], ow]], st)
+            else pure ([.boolOp .or_ [.boolOp .and_ [t, .list [bw]], ow]], st)
         | .ifExpr => pure ([.ifExp t bw ow], st)
     | .while_ test body orelse, st => do
         let (brk, st) := st.fresh "break"
